@@ -604,12 +604,31 @@ func (g *Graph) gateLeaves(v int, countNil bool) (int, string) {
 		if !rejoins {
 			continue
 		}
+		// every atomic test of the condition counts, whether the condition is written with &&, || or !: the same
+		// decision spread over several if statements or merged into one has the same number of tests
 		var leaves []Atom
-		splitAtoms(e, true, &leaves)
-		for _, a := range leaves {
-			if isCompound(a.E) {
-				continue
+		var flat func(e ast.Expr)
+		flat = func(e ast.Expr) {
+			e = ast.Unparen(e)
+			switch x := e.(type) {
+			case *ast.UnaryExpr:
+				if x.Op == token.NOT {
+					if isCompound(ast.Unparen(x.X)) {
+						flat(x.X)
+						return
+					}
+				}
+			case *ast.BinaryExpr:
+				if x.Op == token.LAND || x.Op == token.LOR {
+					flat(x.X)
+					flat(x.Y)
+					return
+				}
 			}
+			leaves = append(leaves, Atom{e, true})
+		}
+		flat(e)
+		for _, a := range leaves {
 			if _, _, isNil := NilTest(a.E); isNil && !countNil {
 				continue
 			}
@@ -623,4 +642,58 @@ func (g *Graph) gateLeaves(v int, countNil bool) (int, string) {
 		}
 	}
 	return n, strings.Join(parts, " ; ")
+}
+
+// ReachAssuming computes reachability when the given atoms (conditions with a truth value) hold: a branch condition
+// built from them is evaluated, everything else stays unknown. Atoms are matched structurally (sameExpr), so the same
+// test written in one `if a && b` or in two nested ifs gives the same answer.
+func (g *Graph) ReachAssuming(atoms []Atom) []bool {
+	return g.ReachUnder(func(e ast.Expr) tri {
+		for _, a := range atoms {
+			if sameExpr(a.E, e) {
+				if a.Val {
+					return triTrue
+				}
+				return triFalse
+			}
+		}
+		return triUnknown
+	}, nil)
+}
+
+// gateOf returns the condition vertices that form the gate of v — the conditions whose outcome decides whether v
+// runs and whose other outcome rejoins what follows v (exit guards are not part of it, see gateLeaves) — outermost
+// first. `if a && b { v }` has one gate vertex, `if a { if b { v } }` has two; rules that ask whether "the test in
+// front of v" is always evaluated ask it about the first.
+func (g *Graph) gateOf(v int) []int {
+	var out []int
+	future := g.ReachableFrom(v)
+	future[v] = true
+	for _, ev := range g.condVertices() {
+		need := -1
+		for k := 0; k < 2; k++ {
+			seen, _ := g.reach([]int{g.Entry}, nil, func(u, kk int) bool { return u == ev && kk == k })
+			if v != g.Entry && !seen[v] {
+				need = k
+			}
+		}
+		if need < 0 {
+			continue
+		}
+		alt := g.succ[ev][1-need]
+		altSeen, _ := g.reach([]int{alt}, nil, nil)
+		altSeen[alt] = true
+		rejoins := false
+		for u, in := range altSeen {
+			if in && future[u] {
+				rejoins = true
+				break
+			}
+		}
+		if rejoins {
+			out = append(out, ev-1)
+		}
+	}
+	sort.Slice(out, func(i, j int) bool { return g.Dominates(out[i], out[j]) && out[i] != out[j] })
+	return out
 }
